@@ -52,3 +52,29 @@ Definition spec_rel (feats : list row) (dir : reldir) (x : str) (level : option 
       end
   end.
 
+(* ---- the relation table over histories of imports (C02_history_closed) ---- *)
+Definition closed2 (st : ist) : Prop :=
+  forall x z, In (mkRel x z 2) (s_rels st) -> exists y, In (mkRel x y 1) (s_rels st) /\ In (mkRel y z 1) (s_rels st).
+Definition complete2 (st : ist) : Prop :=
+  forall x y z, In x (map r_id (s_rows st)) -> In (mkRel x y 1) (s_rels st) -> In (mkRel y z 1) (s_rels st) ->
+  In (mkRel x z 2) (s_rels st).
+Definition levels12 (st : ist) : Prop := forall x, In x (s_rels st) -> rel_level x = 1 \/ rel_level x = 2.
+Definition clean_state (st : ist) : Prop :=
+  (forall r, In r (s_rows st) -> id_clean (r_id r) = true) /\ (forall x, In x (s_rels st) -> id_clean (rel_child x) = true).
+
+(* ids and Parent values free of TAB / CR / LF: the domain in which the temp-file round trip of _update_relations is exact *)
+Definition clean_b (st : ist) : bool :=
+  forallb (fun r => id_clean (r_id r)) (s_rows st) && forallb (fun x => id_clean (rel_child x)) (s_rels st).
+
+(* a history: create_db, then update() calls, each with its own strategy; it stays in the domain (clean_b after every
+   import) and every batch is non-empty (an empty update returns before the importer runs) *)
+Fixpoint imports (call : nat -> row -> option str) (force : list field) (spec : idspec) (bs : list (strategy * list row)) (st : ist) : result ist :=
+  match bs with
+  | [] => Ok st
+  | (strat, fs) :: r =>
+      match import_gff call strat force spec fs st with
+      | Ok st1 => if clean_b st1 then imports call force spec r st1 else Err EOther
+      | Err e => Err e
+      end
+  end.
+
